@@ -26,7 +26,7 @@ from valida.schema import Schema
 META = {
     "rule": "(a) 48 part terms x {long, shorthand, condition-only} styles x {type given, omitted}; (b) paths of length <= 2 "
             "over 12 parts x 5 datum x 5 multiplicity x 2 orders x key spellings (aliases, 3 letter cases); (c) every "
-            "segment list of length 0-3 over {a,b,0,1,-1,1.5,'',0.0,-0.0,1e0} x delimiters '/' and '.'; (d) rules = 8 paths x 5 conditions "
+            "segment list of length 0-3 over {a,b,0,1,-1,1.5,'',0.0,-0.0,1e0} x delimiters '/' and '.'; (d) rules = 8 paths x 7 conditions "
             "x 3 casts x 8 doc shapes x {list, tuple} path containers; (e) every 1-2 rule schema over a 10-rule pool as "
             "YAML flow text, YAML block text and a YAML file; a case is one (term, spelling) pair; non-trivial = parsed, "
             "equal and compared on the probe documents",
@@ -181,7 +181,9 @@ R_PATHS = [(), (("prim", "a"),), (("prim", "a"), ("prim", 0)), (gen.BARE[0],), (
            (gen.MAPS[5],), (gen.MOLS[6], ("prim", "a")), (("map", ("lit", "a"), None, "L"), gen.LISTS[4])]
 R_CONDS = [T.NULL, L("ValueDataType", "equal_to", int), L("Value", "in_range", 0, 5),
            ("and", L("Value", "greater_than", 0), ("or", L("Value", "truthy"), L("ValueLength", "less_than", 2))),
-           L("Value", "keys_contain_any_of", "a", "b")]
+           L("Value", "keys_contain_any_of", "a", "b"),
+           L("ValueLength", "in_range", lower=0, upper=("$path", P((("prim", "b"),), "length"))),     # literal before path
+           L("Value", "in_", [1, ("$path", P((("prim", "b"),)))])]
 R_CASTS = [(), (("str", "bool"),), (("str", "int"),)]
 DOC_FORMS = [
     None, "a text\n", ["line 1 ", " line 2\n"], {"description": "d\n"}, {"description": ["d1", " d2 "]},
@@ -233,6 +235,7 @@ def units(tier):
     u += [["str", n, d] for n in range(4) for d in ("/", ".")]
     u += [["rule", i] for i in range(len(R_PATHS))]
     u += [["yaml", i] for i in range(10)]
+    u += [["alias"]]
     return u
 
 
@@ -277,6 +280,8 @@ def run_unit(unit, tier):
         for segs in itertools.product(SEGS, repeat=n):
             check_str(res, list(segs), delim, key=("str", segs, delim))
         res.sample({"kind": "str", "segments": ["a", "0"][:n], "delimiter": delim})
+    elif kind == "alias":
+        check_aliased(res)
     elif kind == "rule":
         p = R_PATHS[unit[1]]
         for ci, c in enumerate(R_CONDS):
@@ -320,9 +325,55 @@ def check_prim(res, parts, before):
         res.count("nontrivial")
 
 
+ALIAS_PARTS = [gen.BARE[0], gen.BARE[1], gen.MAPS[5], gen.LISTS[4], gen.MOLS[6], ("map", ("lit", "a"), None, "L")]
+
+
+def check_aliased(res, only=None):
+    """Part specs / sub-specs shared inside one spec structure: [s, s], ['a', s, s], a rule whose path uses s twice, a YAML
+    document with &anchor / *alias.  They must parse like two separate equal copies."""
+    for pi, p in enumerate(ALIAS_PARTS):
+        if only is not None and pi != only:
+            continue
+        for style in ("long", "short"):
+            res.count("evaluations")
+            res.states.add(hash(("alias", pi, style)))
+            case = {"kind": "alias", "index": pi}
+            s = S.part_spec(p, style)
+            built = _api(res, lambda: T.build_path(P((("prim", "a"), p, p))), case, "path")
+            if built is None:
+                return
+            res.count("transitions", 4)
+            try:
+                got = {
+                    "from_part_specs": DataPath.from_part_specs("a", s, s),
+                    "from_spec": DataPath.from_spec({"path": ["a", s, s]}),
+                    "Rule.from_spec": Rule.from_spec({"path": ["a", s, s], "condition": {}}).path,
+                }
+                y = "rules:\n- path: [a, &p %s, *p]\n  condition: {}\n" % json.dumps(_yamlable(s))
+                got["from_yaml"] = Schema.from_yaml(y).rules[0].path
+            except BaseException as e:
+                res.violation("alias:parse:%s" % type(e).__name__, "a spec using the part spec %r twice was rejected: %r" % (s, e), case,
+                              observed=repr(e))
+                continue
+            bad = [k for k, v in got.items() if not (v == built and built == v)]
+            if bad:
+                res.violation("alias:unequal", "%s of a path using the same part-spec object twice gives %r, not %r"
+                              % (bad[0], got[bad[0]], built), case, observed=repr(got[bad[0]]), expected=repr(built))
+                continue
+            res.count("validated")
+            res.count("nontrivial")
+
+
+def _yamlable(x):
+    return json.loads(json.dumps(x, default=lambda t: S.TYPE_NAME[t]))
+
+
 def replay(case):
     res = Result()
     k = case["kind"]
+    if k == "alias":
+        check_aliased(res, only=case["index"])
+        return list(res.violations.values())
     if k == "primhist":
         check_prim(res, tuple(case["parts"]), [tuple(b) for b in case["before"]])
         return list(res.violations.values())
